@@ -356,6 +356,9 @@ func (s *Session) rangeFacts(v Val) T {
 			continue
 		}
 		fs = append(fs, Ge(x, I(0)))
+		if strings.HasSuffix(l.Path, "#len") || strings.HasSuffix(l.Path, "#off") {
+			fs = append(fs, Le(x, bigT(maxInt64)))
+		}
 	}
 	return And(fs...)
 }
